@@ -284,6 +284,7 @@ def run_case(case, ctx):
         # order of their own
         for r in batch:
             r.pop('explicit-route-objects', None)
+        twin_of = {}            # (twins that differed in their route lists are identical requests now)
         pool = ids[:]
         rng.shuffle(pool)
         if len(pool) >= 2 and rng.random() < 0.6:
